@@ -52,6 +52,11 @@ func (self *Compiler) compileFn(node ast.AnalyzedFunctionDefinition) (annotation
 	self.pushScope()
 	defer self.popScope()
 
+	// Try blocks and loops of an enclosing function (this one may be a closure literal) are none of this function's business.
+	outerTryDepth, outerLoops := self.tryDepth, self.loops
+	self.tryDepth, self.loops = 0, make([]Loop, 0)
+	defer func() { self.tryDepth, self.loops = outerTryDepth, outerLoops }()
+
 	// Compile annotations.
 	if node.Annotation != nil {
 		compiledItems := make([]CompiledAnnotation, len(node.Annotation.Items))
